@@ -128,23 +128,61 @@ pub struct Harness {
     pub deadline: Duration,
 }
 
-fn run_guarded<T: Send + 'static>(c: Case, f: impl FnOnce(&Case) -> T + Send + 'static, deadline: Duration) -> Result<T, &'static str> {
-    let (tx, rx) = mpsc::channel();
-    let h = std::thread::Builder::new()
-        .stack_size(64 << 20)
-        .spawn(move || {
-            let r = std::panic::catch_unwind(std::panic::AssertUnwindSafe(|| f(&c)));
-            let _ = tx.send(r.map_err(|_| ()));
-        })
-        .expect("spawn");
-    match rx.recv_timeout(deadline) {
-        Ok(Ok(v)) => {
-            let _ = h.join();
-            Ok(v)
+/// A worker thread that evaluates cases one after the other; it is replaced only after a panic or a
+/// missed deadline (the hung thread is leaked on purpose). Spawning a thread per case cost ~7 ms.
+struct Worker {
+    tx: mpsc::Sender<Case>,
+    rx: mpsc::Receiver<Result<String, ()>>,
+}
+impl Worker {
+    fn spawn(f: fn(&Case) -> String) -> Worker {
+        let (tx, crx) = mpsc::channel::<Case>();
+        let (rtx, rx) = mpsc::channel::<Result<String, ()>>();
+        std::thread::Builder::new()
+            .stack_size(256 << 20)
+            .spawn(move || {
+                while let Ok(c) = crx.recv() {
+                    let r = std::panic::catch_unwind(std::panic::AssertUnwindSafe(|| f(&c)));
+                    let failed = r.is_err();
+                    if rtx.send(r.map_err(|_| ())).is_err() || failed {
+                        break; // after a panic thread-local state may be poisoned: start afresh
+                    }
+                }
+            })
+            .expect("spawn");
+        Worker { tx, rx }
+    }
+}
+struct Guard {
+    f: fn(&Case) -> String,
+    w: Option<Worker>,
+    deadline: Duration,
+}
+impl Guard {
+    fn new(f: fn(&Case) -> String, deadline: Duration) -> Self {
+        Guard { f, w: None, deadline }
+    }
+    fn run(&mut self, c: Case) -> Result<String, &'static str> {
+        let w = self.w.get_or_insert_with(|| Worker::spawn(self.f));
+        if w.tx.send(c).is_err() {
+            self.w = None;
+            return Err("PANIC");
         }
-        Ok(Err(())) => Err("PANIC"),
-        Err(mpsc::RecvTimeoutError::Timeout) => Err("HANG"), // the thread is leaked on purpose
-        Err(mpsc::RecvTimeoutError::Disconnected) => Err("PANIC"),
+        match w.rx.recv_timeout(self.deadline) {
+            Ok(Ok(v)) => Ok(v),
+            Ok(Err(())) => {
+                self.w = None;
+                Err("PANIC")
+            }
+            Err(mpsc::RecvTimeoutError::Timeout) => {
+                self.w = None; // leak the hung thread
+                Err("HANG")
+            }
+            Err(mpsc::RecvTimeoutError::Disconnected) => {
+                self.w = None;
+                Err("PANIC")
+            }
+        }
     }
 }
 
@@ -165,6 +203,28 @@ pub fn main_with(h: Harness) {
         }
         "impl" | "prop" | "git" => {
             let stdin = std::io::stdin();
+            fn no_git(_: &Case) -> String {
+                "-".into()
+            }
+            // the worker thread needs the prop fn pointer: pass it through a static
+            static PROP_FN: std::sync::OnceLock<fn(&Case) -> Verdict> = std::sync::OnceLock::new();
+            fn prop_line_static(c: &Case) -> String {
+                let f = *PROP_FN.get().expect("prop fn");
+                let v = f(c);
+                format!(
+                    "{} {} {} {}",
+                    if v.ok { "OK" } else { "FAIL" },
+                    v.nontrivial as u8,
+                    if v.class.is_empty() { "-" } else { &v.class },
+                    v.detail.replace('\n', "\\n")
+                )
+            }
+            let _ = PROP_FN.set(h.prop);
+            let mut guard = match cmd {
+                "impl" => Guard::new(h.imp, h.deadline),
+                "git" => Guard::new(h.git.unwrap_or(no_git), Duration::from_secs(120)),
+                _ => Guard::new(prop_line_static, h.deadline),
+            };
             for line in stdin.lock().lines() {
                 let line = line.unwrap();
                 let line = line.trim();
@@ -172,26 +232,13 @@ pub fn main_with(h: Harness) {
                     continue;
                 }
                 let c = parse_case(line);
-                let s = match cmd {
-                    "impl" => {
-                        let f = h.imp;
-                        run_guarded(c, move |c| f(c), h.deadline).unwrap_or_else(|e| e.to_string())
-                    }
-                    "git" => match h.git {
-                        Some(f) => run_guarded(c, move |c| f(c), Duration::from_secs(60)).unwrap_or_else(|e| e.to_string()),
-                        None => "-".into(),
-                    },
-                    _ => {
-                        let f = h.prop;
-                        match run_guarded(c, move |c| f(c), h.deadline) {
-                            Ok(v) => format!(
-                                "{} {} {} {}",
-                                if v.ok { "OK" } else { "FAIL" },
-                                v.nontrivial as u8,
-                                if v.class.is_empty() { "-" } else { &v.class },
-                                v.detail.replace('\n', "\\n")
-                            ),
-                            Err(e) => format!("FAIL 1 {} harness-level {}", e.to_lowercase(), e),
+                let s = match guard.run(c) {
+                    Ok(s) => s,
+                    Err(e) => {
+                        if cmd == "prop" {
+                            format!("FAIL 1 {} harness-level {}", e.to_lowercase(), e)
+                        } else {
+                            e.to_string()
                         }
                     }
                 };
